@@ -1,4 +1,5 @@
 import AmaranthVerif.Proofs.Exact
+import AmaranthVerif.Proofs.IntBits
 import AmaranthVerif.Proofs.DerivedSpec
 
 /-!
@@ -36,6 +37,27 @@ theorem rtl_in_shape (ctx : Ctx) (env : Env) (hok : EnvOk ctx env) (e : Expr) (h
     (shapeOf ctx e).contains (rtlValue ctx env e) := by
   rw [rtl_exact ctx env hok e hwf]; exact (shape_sound ctx env hok e hwf).2
 
+/-! ### The functions the Spec shares with the Model, characterised independently -/
+
+/-- `&`, `|`, `^` on unbounded Python integers are bitwise on the infinite two's-complement representations, and shifts
+move bits (so the Spec's use of `pyAnd`/`pyOr`/`pyXor` stands for "the mathematical bitwise operation"). -/
+theorem spec_bitwise (x y : Int) (k n : Nat) :
+    ibit (pyAnd x y) k = (ibit x k && ibit y k) ∧ ibit (pyOr x y) k = (ibit x k || ibit y k) ∧
+    ibit (pyXor x y) k = (ibit x k ^^ ibit y k) ∧ ibit (pyNot x) k = !ibit x k ∧
+    ibit (pyShr x n) k = ibit x (k + n) ∧ ibit (pyShl x n) k = (decide (n ≤ k) && ibit x (k - n)) :=
+  ⟨ibit_pyAnd x y k, ibit_pyOr x y k, ibit_pyXor x y k, ibit_pyNot x k, ibit_pyShr x n k, ibit_pyShl x n k⟩
+
+/-- `norm s v` is the value of shape `s` congruent to `v` modulo `2^width`, and the only one. -/
+theorem spec_norm (s : Shape) (h : s.WF) (v : Int) :
+    s.contains (norm s v) ∧ norm s v % 2 ^ s.width = v % 2 ^ s.width ∧
+    ∀ r, s.contains r → r % 2 ^ s.width = v % 2 ^ s.width → r = norm s v := by
+  refine ⟨norm_contains s h v, norm_emod s v, fun r hr hc => ?_⟩
+  exact (norm_eq_of_congr s h hr hc.symm).symm
+
+/-- integers with the same bits inside a shape are the same value of that shape -/
+theorem spec_bits_determine (s : Shape) (h : s.WF) (a b : Int) (ha : s.contains a) (hb : s.contains b)
+    (hbits : ∀ k, k < s.width → ibit a k = ibit b k) : a = b := eq_of_ibits s h ha hb hbits
+
 /-! ### Non-vacuity: a depth-3 mixed-sign expression meets the hypotheses -/
 
 def exCtx : Ctx := [⟨4, false⟩, ⟨3, true⟩]
@@ -45,6 +67,12 @@ def exExpr : Expr :=
   .part (.op2 .sub (.op2 .mul (.sig 0) (.sig 1)) (.op1 .inv (.sig 0))) (.op1 .u (.sig 1)) 3 1
 
 example : exExpr.wf exCtx = true := by decide
+example : EnvOk exCtx exEnv := by
+  intro i
+  match i with
+  | 0 => decide
+  | 1 => decide
+  | n + 2 => simp [Ctx.shape, Env.val, exCtx, exEnv, Shape.WF, Shape.contains, Shape.lo, Shape.hi, Shape.u]
 example : denote exCtx exEnv exExpr = 4 := by decide
 example : rtlValue exCtx exEnv exExpr = 4 := by decide
 
